@@ -1,3 +1,4 @@
 /- C01: chunk independence. The property theorems live in the imported files. -/
 import Proofs.C01Core
 import Proofs.C03Sym
+import Proofs.ThreePointC01
